@@ -421,6 +421,33 @@ func c10Enumerate(c *hx.Ctx) []*scenario {
 			out = append(out, &scenario{name: "seq/" + m.tag + "-" + c10Name(sc), steps: c10Script(m.cfg, sc)})
 		}
 	}
+	// longer scripts: interleaved ids with every PUBREL repeated on one connection, a handshake that starts with a
+	// dup=1 copy, PUBLISH then PUBLISH(dup) on one connection, all in every mode (clean and non-clean sessions)
+	{
+		p := func(id uint16, dup bool) bact { return bact{kind: "pub", id: id, q: 2, dup: dup} }
+		r := func(id uint16) bact { return bact{kind: "rel", id: id} }
+		x := bact{kind: "resume"}
+		long := [][]bact{
+			{p(1, false), p(2, false), r(1), r(2), r(1), r(2)},
+			{p(1, false), r(1), r(1), p(1, false), r(1)},
+			{p(1, true), r(1), r(1)},
+			{p(1, false), p(1, true), r(1), p(1, true), r(1)},
+			{p(1, true), p(2, true), r(2), r(1), x, r(1), r(2)},
+			{p(1, false), x, p(1, true), r(1), x, r(1)},
+			{p(1, false), p(2, false), p(3, false), r(3), r(1), r(2), r(3)},
+		}
+		for _, m := range modes {
+			for _, sc := range long {
+				out = append(out, &scenario{name: "seq/" + m.tag + "-" + c10Name(sc), steps: c10Script(m.cfg, sc)})
+			}
+			// the PUBREC (or PUBCOMP) write fails, resume, the broker retransmits
+			for k := 2; k <= 4; k++ {
+				sc := []bact{p(1, false), x, p(1, true), r(1), x, r(1)}
+				out = append(out, &scenario{name: fmt.Sprintf("seq/%s-ackfail@%d-%s", m.tag, k, c10Name(sc)),
+					failAt: map[string]int{"send": k}, steps: c10Script(m.cfg, sc)})
+			}
+		}
+	}
 	// callback error at the k-th invocation, send failure at the k-th acknowledgement, session failures
 	var base [][]bact
 	p := func(id uint16, q byte) bact { return bact{kind: "pub", id: id, q: q} }
